@@ -55,7 +55,8 @@ def run(chk: Check):
     jobs = [dict(seq="iwls_rw_gibbs", model_kind="liesel", seed=chk.seed),
             dict(seq="rw_mh_rw", model_kind="dict", seed=chk.seed + 1),
             dict(seq="rw_mh_rw", model_kind="liesel", seed=chk.seed + 2, custom_idents=False),
-            dict(seq="rw_hi_u_ab", model_kind="liesel2", seed=chk.seed + 7)]
+            dict(seq="rw_hi_u_ab", model_kind="liesel2", seed=chk.seed + 7),
+            dict(seq="fdgibbs_rw", model_kind="liesel3", seed=chk.seed + 9)]
     if not chk.quick:
         jobs += [dict(seq="gibbs_nuts", model_kind="liesel", seed=chk.seed + 3),
                  dict(seq="hmc_rw", model_kind="liesel", seed=chk.seed + 4),
@@ -94,6 +95,13 @@ def _glue(chk, rng):
     from harness import gibbs_driver
     gt = [{"hdr": {"kind": "tau2", "d": 3, "order": 1, "nontrivial": True}, "ev": gibbs_driver.tau2_events(rng, 3, 1, nkeys=3)}]
     chk.tv("Trace_Gibbs.tla", gt, tag="gibbs_start_state", keyfn=lambda r: f"gibbs:{r.trace['hdr']['kind']}:{r.conjunct}")
+    # RW / MH / IWLS next to a kernel that moves what their block's density depends on: proposal and acceptance are those
+    # of the state the predecessor left (shared with C06)
+    from harness import parallel as par, proposals_driver as P
+    js = [j for j in P.jobs(True) if j["family"] in ("coupled", "gamma_coupled")]
+    ktr = [t for res in par.run_jobs("harness.proposals_driver", "run", js) for t in res]
+    chk.tv("Trace_Proposals.tla", ktr, tag="start_state_of_mh_kernels", timeout=900,
+           keyfn=lambda r: f"start_state:{r.trace['hdr']['kernel']}:{r.conjunct}")
 
 
 def replay(chk: Check, data):
